@@ -231,11 +231,11 @@ MUTANTS += [
     dict(prop='C11', name='tb-forgot-div-8', edits=[(TB, "self.current_bucket + self.rate * (now - self.update_time) / 8.0,", "self.current_bucket + self.rate * (now - self.update_time),")]),
     dict(prop='C11', name='tb-cap-omitted', edits=[(TB, "            self.current_bucket = min(\n                self.bucket_size,\n                self.current_bucket + self.rate * (now - self.update_time) / 8.0,\n            )",
          "            self.current_bucket = self.current_bucket + self.rate * (now - self.update_time) / 8.0")]),
-    dict(prop='C11', name='tb-update-time-not-refreshed-after-wait', edits=[(TB, "                self.current_bucket = 0.0\n                self.update_time = env.now", "                self.current_bucket = 0.0")]),
+    dict(prop='C11', name='tb-update-time-not-refreshed-after-wait', edits=[(TB, "                    self.rate * (env.now - self.update_time) / 8.0 - packet.size\n                )\n                self.update_time = env.now", "                    self.rate * (env.now - self.update_time) / 8.0 - packet.size\n                )")]),
     dict(prop='C11', name='tb-peak-spacing-skipped-for-small', edits=[(TB, "            if self.peak:", "            if self.peak and packet.size > 100:")]),
     dict(prop='C11', name='trtb-colours-swapped', edits=[(TRTB, "                    self.current_bucket_peak -= packet.size\n                    self.current_bucket_commit = 0.0\n                    packet.color = \"yellow\"", "                    self.current_bucket_peak -= packet.size\n                    self.current_bucket_commit = 0.0\n                    packet.color = \"green\"")]),
     dict(prop='C11', name='trtb-commit-not-debited-for-green', edits=[(TRTB, "                    self.current_bucket_commit -= packet.size\n                    self.current_bucket_peak -= packet.size", "                    self.current_bucket_peak -= packet.size")]),
-    dict(prop='C11', name='trtb-red-not-marked', edits=[(TRTB, "                    self.current_bucket_peak = 0.0\n                    packet.color = \"red\"", "                    self.current_bucket_peak = 0.0\n                    packet.color = \"yellow\"")]),
+    dict(prop='C11', name='trtb-red-not-marked', edits=[(TRTB, "                    packet.color = \"red\"", "                    packet.color = \"yellow\"")]),
     dict(prop='C11', name='trtb-shapes-against-cir-when-pir-set', edits=[(TRTB, "                        (packet.size - self.current_bucket_peak) * 8.0 / self.pir", "                        (packet.size - self.current_bucket_peak) * 8.0 / self.cir")]),
 ]
 
